@@ -39,10 +39,11 @@ def formats_of(m, wd):
     except ToolError:
         return {"aeon": m["model"]}
     out = {"aeon": m["model"]}
-    if o.get("bnet"):
-        out["bnet"] = o["bnet"]
-    if o.get("sbml"):
-        out["sbml"] = o["sbml"]
+    cand = [{"id": fmt, "model": o[fmt], "format": fmt} for fmt in ("bnet", "sbml") if o.get(fmt)]
+    # a rendering is used only if the library builds a graph with a non-empty unit set from it (the bnet
+    # rendering loses the regulation annotations and may be rejected: "x has no effect in y")
+    for c in common.probe_networks(cand):
+        out[c["id"]] = c["model"]
     return out
 
 
